@@ -76,7 +76,11 @@ fn gen_measure_cal(src: &mut Src, k: usize) -> MeasureCalibrationDefinition {
         0 => Qubit::Variable("q".into()),
         k => Qubit::Fixed(k as u64 - 1),
     };
-    let target = if src.chance(3, 4) { Some("addr".to_string()) } else { None };
+    let target = match src.below(8) {
+        0 | 1 => None,
+        2 | 3 => Some("dest".to_string()),
+        _ => Some("addr".to_string()),
+    };
     MeasureCalibrationDefinition { identifier: MeasureCalibrationIdentifier::new(name, qubit, target), instructions: marker(k) }
 }
 
@@ -109,7 +113,7 @@ impl Property for C16Prop {
         "C16"
     }
     fn rule(&self) -> &'static str {
-        "random calibration lists of 0..7 definitions over names {X, RX, CZ}, modifier lists {[], [DAGGER], [CONTROLLED]}, qubits Fixed 0..2 / Variable a,b, parameters {0, 1, pi/2, 1.5707963267948966, %t} (occasionally with a deviating qubit/parameter count), each with an identifying PRAGMA body, and measure calibrations over names {none, m1}, qubits Fixed 0..2 / Variable, with/without target; queries are with probability 0.8 an instantiation of one definition (variables replaced, fixed parts kept or perturbed, constants respelled) and otherwise arbitrary over the same alphabets. Non-trivial = >= 2 definitions match the query; distinct by (definitions, query) text."
+        "random calibration lists of 0..7 definitions over names {X, RX, CZ}, modifier lists {[], [DAGGER], [CONTROLLED]}, qubits Fixed 0..2 / Variable a,b, parameters {0, 1, pi/2, 1.5707963267948966, %t} (occasionally with a deviating qubit/parameter count), each with an identifying PRAGMA body, and measure calibrations over names {none, m1}, qubits Fixed 0..2 / Variable, without target or with target name addr / dest (two definitions that differ only in the target name are distinct); queries are with probability 0.8 an instantiation of one definition (variables replaced, fixed parts kept or perturbed, constants respelled) and otherwise arbitrary over the same alphabets. Non-trivial = >= 2 definitions match the query; distinct by (definitions, query) text."
     }
     fn max_words(&self) -> usize {
         200
